@@ -115,6 +115,25 @@ theorem valid_noprune_complete (i : Inst) (h : checkSchedule i = true) (hp : i.p
   obtain ⟨c, hc, hv⟩ := this hex
   exact ⟨c, hc, hv⟩
 
+/-- the list of unscheduled owed vertices the driver reports is empty exactly when `c6` holds -/
+theorem c6_iff_missing_nil (i : Inst) : c6 i = true ↔ c6Missing i = [] := by
+  unfold c6 c6Missing
+  cases hp : i.prune
+  · simp only [Bool.false_or, List.all_eq_true, Bool.or_eq_true, beq_iff_eq, decide_eq_true_eq, Bool.false_eq_true, if_false,
+      List.map_eq_nil_iff, List.filter_eq_nil_iff, Bool.and_eq_true, Bool.not_eq_true', not_and, Bool.not_eq_false]
+    constructor
+    · intro h r hr hns
+      rcases h r hr with hk | himp
+      · simp [hk] at hns
+      · exact himp hns.2
+    · intro h r hr
+      by_cases hk : r.v.kind = i.sup
+      · left; exact hk
+      · right
+        intro hex
+        exact h r hr ⟨by simpa using hk, hex⟩
+  · simp
+
 /-- no two runnable cells of one kind share a generation (needed by the executor's per-kind overwrite) -/
 theorem valid_one_kind_per_generation (i : Inst) (h : checkSchedule i = true) (c c' : Cell) (hc : c ∈ i.sched) (hc' : c' ∈ i.sched)
     (hk : c.kind = c'.kind) (hp : c.part = c'.part) (hg : c.gen = c'.gen) : c.slot = c'.slot := by
